@@ -121,6 +121,14 @@ func c07Run(cs c07Case, plain bool) (*h.Rec, *ledger, interface{}) {
 		rb.ContentEncodingEnabled(false)
 	}
 	ws.Route(rb)
+	// the same builder is used again for a sibling route with the opposite setting (builders are
+	// reusable: each Route gets its own copy of the switch)
+	switch cs.Override {
+	case "true":
+		ws.Route(rb.Path("/r2").ContentEncodingEnabled(false))
+	case "false":
+		ws.Route(rb.Path("/r2").ContentEncodingEnabled(true))
+	}
 	c.Add(ws)
 	plainH := http.HandlerFunc(func(w http.ResponseWriter, r *http.Request) { writeChunks(w, payload, cs.Chunking) })
 	if strings.HasPrefix(cs.Entry, "HandleWithFilter") {
